@@ -4,6 +4,7 @@ HERE="$(cd "$(dirname "$0")/.." && pwd)"
 WT=$(mktemp -d /tmp/refreg_XXXX); rmdir "$WT"
 git -C /repo worktree add -q "$WT" HEAD || exit 3
 run() { # patch props...
+  case "$1" in ${ONLY:-*}) ;; *) return;; esac
   P=$1; shift
   git -C "$WT" checkout -q -- . && git -C "$WT" apply "$HERE/refactors/$P" 2>/dev/null || { echo "$P patch-does-not-apply"; return; }
   for PROP in "$@"; do
@@ -24,4 +25,16 @@ run R4/patch_1.diff C16
 run R4/patch_2.diff C09
 run R4/patch_3.diff C15
 run R5/patch.diff C11
+run R6/patch_1.diff C08
+run R6/patch_2.diff C08
+run R6/patch_3.diff C13
+run R7/patch_1.diff C14
+run R7/patch_2.diff C14 C13
+run R7/patch_3.diff C14
+run R8/patch_1.diff C10
+run R8/patch_2.diff C17
+run R8/patch_3.diff C09 C06
+run R9/patch_1.diff C16
+run R9/patch_2.diff C16
+run R9/patch_3.diff C11
 git -C /repo worktree remove --force "$WT"
